@@ -354,6 +354,24 @@ func runC15(c *Ctx) {
 		c.St.Eval("seq:"+t.Token()+to.Token(), true)
 	}
 	c.longLists("C15")
+	// lengths around every plausible chunking threshold, not multiples of the processor count
+	for _, n := range []int{1023, 1024, 1025, 1031, 2049, 4099} {
+		c.M.Case("long-async")
+		gs := make([]*GV, n)
+		for i := range gs {
+			gs[i] = gvInt(i)
+		}
+		l := c.M.NewList(gs...)
+		c.M.MapAsync(l, &Fn{Name: "idx"})
+		c.M.ForEachAsync(l)
+		kvs := make([]*GV, 0, 2*n)
+		for i := 0; i < n; i++ {
+			kvs = append(kvs, gvStr("k"+strconv.Itoa(i)), gvInt(i))
+		}
+		o := c.M.NewObject(kvs...)
+		c.M.OMapAsync(o, &Fn{Name: "inc"})
+		c.M.OForEachAsync(o)
+	}
 	// nested and concurrent async calls: calls are independent of each other (a lock shared between calls would deadlock)
 	c.M.Case("nested-and-concurrent-async")
 	for rep := 0; rep < c.N(3, 20); rep++ {
